@@ -16,8 +16,12 @@
    Outside the model: KeyPressEvent.arg / is_repeat / previous_key_sequence,
    macro recording, undo save points, vi cursor fix-up, before/after_key_press
    events, the asyncio flush timer (the timeout is the [IFlush] item),
-   cursor position reports (Keys.CPRResponse is not in the key alphabet:
-   _handle_cpr_response and the CPR-only pops after is_done never trigger). *)
+   Cursor position reports: the key [CPR] never enters the key buffer;
+   process_keys hands it to _handle_cpr_response (the last registered active
+   binding whose keys are exactly (CPRResponse,)), and after is_done only CPR
+   items are still taken out of the queue.
+   The "previous key" bookkeeping (_previous_handler, _previous_key_sequence)
+   is the state field [sprev]. *)
 From Coq Require Import ZArith List Bool.
 From PTK Require Import Lib.Sx.
 Import ListNotations.
@@ -162,7 +166,9 @@ Inductive event : Type :=
 | ERaised (lostbuf : list Z) (lostq : list item)     (* exception: reset() + empty_queue() discard these *)
 | EBack (ks : list Z)                                (* is_done: input_queue.extendleft(reversed(buffer)); del buffer[:] *)
 | EPop (it : item)                                   (* process_keys: input_queue.popleft() *)
-| EFed (first : bool) (its : list item).             (* a handler called feed_multiple *)
+| EFed (first : bool) (its : list item)              (* a handler called feed_multiple *)
+| ETake                                              (* is_done: the first CPR item is removed from the queue *)
+| ECpr (i : nat).                                    (* _handle_cpr_response called the handler of binding #i *)
 
 (* outcome of a handler body *)
 Record hres : Type := mkhres {
@@ -247,7 +253,10 @@ Fixpoint loop (fuel : nat) (bs : list ib) (b : list Z) (flush : bool) (e : env) 
     end
   end.
 
-Record st : Type := mkst { buf : list Z; queue : list item; cenv : env; sdone : bool }.
+Record st : Type := mkst {
+  buf : list Z; queue : list item; cenv : env; sdone : bool;
+  sprev : option (nat * list Z)     (* _previous_handler (as binding index), _previous_key_sequence *)
+}.
 
 Definition is_flush (it : item) : bool := match it with IFlush => true | _ => false end.
 Definition push (b : list Z) (it : item) : list Z :=
@@ -257,33 +266,87 @@ Definition push (b : list Z) (it : item) : list Z :=
 Definition send (bs : list ib) (b : list Z) (e : env) (q : list item) (d : bool) (it : item) : lres :=
   loop (S (length (push b it))) bs (push b it) (is_flush it) e q d.
 
+(* _call_handler: `self._previous_key_sequence = key_sequence; self._previous_handler = handler`
+   after the handler returned; reset() clears both *)
+Fixpoint upd_prev (pv : option (nat * list Z)) (evs : list event) : option (nat * list Z) :=
+  match evs with
+  | [] => pv
+  | EInvoke i ks :: r => upd_prev (Some (i, ks)) r
+  | ERaised _ _ :: r => upd_prev None r
+  | _ :: r => upd_prev pv r
+  end.
+
+(* ---- cursor position reports *)
+Definition CPR : Z := 6.
+Definition is_cpr (it : item) : bool := match it with IKey k => k =? CPR | IFlush => false end.
+Definition cpr_keys (ks : list Z) : bool := match ks with [k] => k =? CPR | _ => false end.
+
+(*  for binding in reversed(self._bindings.get_bindings_for_keys((Keys.CPRResponse,))):
+        if binding.keys == (Keys.CPRResponse,) and binding.filter(): binding.call(...); break  *)
+Definition cpr_binding (bs : list ib) (e : env) : option ib :=
+  find (fun m => cpr_keys (bkeys (snd m)) && active e m) (rev (get_for_keys bs [CPR])).
+
+(* cpr = [k for k in self.input_queue if k.key == Keys.CPRResponse][0]; self.input_queue.remove(cpr) *)
+Fixpoint remove_first_cpr (q : list item) : option (list item) :=
+  match q with
+  | [] => None
+  | it :: r => if is_cpr it then Some r
+               else match remove_first_cpr r with Some r' => Some (it :: r') | None => None end
+  end.
+
+(* _handle_cpr_response with the report already taken out of the queue (q): state, events, raised? *)
+Definition cpr_step (bs : list ib) (s : st) (q : list item) : st * list event * bool :=
+  match cpr_binding bs (cenv s) with
+  | None => (mkst (buf s) q (cenv s) (sdone s) (sprev s), [], false)
+  | Some m =>
+      let r := run_actions (bacts (snd m)) (cenv s) q (sdone s) in
+      if hraised r then (mkst [] [] (he r) (hdone r) None, ECpr (fst m) :: hevs r ++ [ERaised (buf s) (hq r)], true)
+      else (mkst (buf s) (hq r) (he r) (hdone r) (sprev s), ECpr (fst m) :: hevs r, false)
+  end.
+
 Inductive status : Type := SDone | SRaised | SFuel.
 
-(* KeyProcessor.process_keys: `while not_empty(): key_press = get_next(); send; except: reset, empty_queue, raise`;
-   not_empty() is false once app.is_done (no cursor position reports here).
-   Returns the state, the events and the items popped from the queue, in order. *)
+(* not_empty() / get_next(): the next item, the queue without it, and the trace event *)
+Definition next_item (s : st) : option (item * list item * event) :=
+  if sdone s then
+    match remove_first_cpr (queue s) with
+    | Some q => Some (IKey CPR, q, ETake)
+    | None => None
+    end
+  else
+    match queue s with
+    | [] => None
+    | it :: q => Some (it, q, EPop it)
+    end.
+
+(* KeyProcessor.process_keys: `while not_empty(): key_press = get_next(); (cpr | send); except: reset, empty_queue, raise`.
+   Returns the state, the events and the items taken from the queue, in order. *)
 Fixpoint process_keys (fuel : nat) (bs : list ib) (s : st) : st * list event * list item * status :=
-  match queue s with
-  | [] => (s, [], [], SDone)
-  | it :: q =>
-    if sdone s then (s, [], [], SDone)
-    else
+  match next_item s with
+  | None => (s, [], [], SDone)
+  | Some (it, q, pev) =>
     match fuel with
     | O => (s, [], [], SFuel)
     | S fuel' =>
-      match send bs (buf s) (cenv s) q false it with
-      | LDone b e q' d evs =>
-          let '(s', evs', pop, stt) := process_keys fuel' bs (mkst b q' e d) in
-          (s', EPop it :: evs ++ evs', it :: pop, stt)
-      | LRaised e d evs => (mkst [] [] e d, EPop it :: evs, [it], SRaised)
-      | LFuel => (s, [], [], SFuel)
-      end
+      if is_cpr it then
+        let '(s1, evs, raised) := cpr_step bs s q in
+        if raised then (s1, pev :: evs, [it], SRaised)
+        else let '(s', evs', pop, stt) := process_keys fuel' bs s1 in
+             (s', pev :: evs ++ evs', it :: pop, stt)
+      else
+        match send bs (buf s) (cenv s) q (sdone s) it with
+        | LDone b e q' d evs =>
+            let '(s', evs', pop, stt) := process_keys fuel' bs (mkst b q' e d (upd_prev (sprev s) evs)) in
+            (s', pev :: evs ++ evs', it :: pop, stt)
+        | LRaised e d evs => (mkst [] [] e d None, pev :: evs, [it], SRaised)
+        | LFuel => (s, [], [], SFuel)
+        end
     end
   end.
 
 (* feed_multiple(items) ; process_keys() *)
 Definition feed_process (fuel : nat) (bs : list ib) (s : st) (its : list item) :=
-  process_keys fuel bs (mkst (buf s) (queue s ++ its) (cenv s) (sdone s)).
+  process_keys fuel bs (mkst (buf s) (queue s ++ its) (cenv s) (sdone s) (sprev s)).
 
 (* ------------------------------------------------------------- wire format *)
 Fixpoint dec_f (s : sx) : option fexpr :=
@@ -344,6 +407,8 @@ Definition enc_event (ev : event) : sx :=
   | EBack ks => L [A 3; sx_str ks]
   | EPop it => L [A 4; enc_item it]
   | EFed f its => L [A 5; sx_bool f; L (map enc_item its)]
+  | ETake => L [A 7]
+  | ECpr i => L [A 6; A (Z.of_nat i)]
   end.
 Definition enc_status (s : status) : sx :=
   match s with SDone => A 0 | SRaised => A 1 | SFuel => A 97 end.
@@ -364,7 +429,8 @@ Definition dec_op (s : sx) : option op :=
 
 Definition enc_state (stt : status) (evs : list event) (pop : list item) (s : st) : sx :=
   L [enc_status stt; L (map enc_event evs); L (map enc_item pop);
-     sx_str (buf s); L (map enc_item (queue s)); enc_env (cenv s); sx_bool (sdone s)].
+     sx_str (buf s); L (map enc_item (queue s)); enc_env (cenv s); sx_bool (sdone s);
+     match sprev s with None => L [] | Some (i, ks) => L [A (Z.of_nat i); sx_str ks] end].
 
 (* every op: the result lists status, events, popped items, key_buffer,
    input_queue, the condition values and is_done afterwards *)
@@ -372,10 +438,10 @@ Fixpoint run_ops (fuel : nat) (bs : list ib) (s : st) (ops : list op) : list sx 
   match ops with
   | [] => []
   | OpFlip c :: r =>
-      let s' := mkst (buf s) (queue s) (flip c (cenv s)) (sdone s) in
+      let s' := mkst (buf s) (queue s) (flip c (cenv s)) (sdone s) (sprev s) in
       enc_state SDone [] [] s' :: run_ops fuel bs s' r
   | OpExit :: r =>
-      let s' := mkst (buf s) (queue s) (cenv s) true in
+      let s' := mkst (buf s) (queue s) (cenv s) true (sprev s) in
       enc_state SDone [] [] s' :: run_ops fuel bs s' r
   | OpFeed its :: r =>
       let '(s', evs, pop, stt) := feed_process fuel bs s its in
@@ -390,7 +456,7 @@ Definition run_keyproc (c : list sx) : sx :=
       match map_opt as_bool e, map_opt dec_binding bs, map_opt dec_op ops with
       | Some e', Some bs', Some ops' =>
           if (0 <=? fuel) && (fuel <=? 100000)
-          then L (run_ops (Z.to_nat fuel) (index_from 0 bs') (mkst [] [] e' false) ops')
+          then L (run_ops (Z.to_nat fuel) (index_from 0 bs') (mkst [] [] e' false None) ops')
           else bad_case
       | _, _, _ => bad_case
       end
